@@ -122,6 +122,15 @@ pub fn build(draws: &[u16], tier: Tier) -> Case {
         c.x.c = Some([1, 1, 2, 3][s.pick(4)] as i64);
         c.x.k = Some(s.pick(65536) as i64);
     }
+    // Drawn last, so that every earlier draw of a case means what it meant before this family existed:
+    // one case in six is replaced by a program that fills all thread slots loom has (main + 4 spawned,
+    // MAX_THREADS = 5), one or two operations per thread on at most two locations, so that schedule
+    // branches carry alternatives in the last slot (seeded change C14r5_a lives there).
+    if s.chance(1, 6) {
+        let lp = gen::LitmusParams { max_threads: 4, max_events: 5 + extra, ..crate::props::ax::params(tier, true) };
+        c.prog = gen::litmus_k(&mut s, &lp, Some(4));
+        c.family = "full-house".into();
+    }
     c
 }
 
